@@ -768,7 +768,21 @@ TABLE = [
     # arrives, reads back, and that the derived quantities follow it on every assignment path
     ("characteristics", "pixel_reset_voltage", "free", [4.0, 5.5, 7.0], True, True, 0.5, False, APD),
 ]
-PATHS = ["ctor", "yaml", "setter", "procset", "sweep", "yaml-sweep"]
+PATHS = ["ctor", "yaml", "setter", "procset", "sweep", "yaml-sweep", "yaml-exp"]
+# "yaml-exp": the value is written in the file the way people write it by hand, in exponent notation without a decimal
+# point (-1e2, 1e9, 1e0): YAML 1.1 hands such a scalar to the application as TEXT. The file may be refused, but an
+# out-of-range quantity must not get in through it and an accepted one must read back as the number written.
+_SENTINEL = 123456789.25
+
+
+def exp_values(row):
+    sec, field, low, high, li, hi, d, integer, _ = row
+    if integer or low in ("len", "free"):
+        return []
+    out = [("exp-below", "-1e2", -100.0, False), ("exp-inside", "1e0", 1.0, True)]
+    if high is not None:
+        out.append(("exp-above", "1e9", 1.0e9, False))
+    return out
 THOROUGH_PATHS = ["yaml+setter", "yaml+procset"]      # the loaded objects changed afterwards
 
 
@@ -867,12 +881,23 @@ def run_range(case):
             seen.add(kk)
             viol.append((key, f"{kind} {sec}.{field} via {path}: {what}"))
 
-    for label, value, valid in table_values(row):
+    cells = [(lab, num, ok, txt) for lab, txt, num, ok in exp_values(row)] if path == "yaml-exp" else \
+        [(lab, v, ok, None) for lab, v, ok in table_values(row)]
+    for label, value, valid, text in cells:
         base = _base_fields(kind)
         got = "<none>"
         holder = None                   # the detector whose setting an assignment path tries to change
         try:
-            if path == "ctor":
+            if path == "yaml-exp":
+                f = json.loads(json.dumps(base))
+                f[sec][field] = _SENTINEL
+                d = {"exposure": {"readout": {"times": [1.0]}}, f"{kind}_detector": f, "pipeline": {}}
+                doc = yaml_text(d)
+                if doc.count(repr(_SENTINEL)) != 1:
+                    raise RuntimeError("harness: sentinel not found in the generated document")
+                cfg = pyxel.loads(doc.replace(repr(_SENTINEL), text))
+                got = _get(getattr(cfg.detector, sec), field)
+            elif path == "ctor":
                 f = json.loads(json.dumps(base))
                 f[sec][field] = value
                 det = build_detector(kind, f["geometry"], f["environment"], f["characteristics"])
@@ -958,6 +983,8 @@ def run_range(case):
         if accepted and not valid:
             bad("invalid-accepted", label, f"value {value!r} ({label}) is outside the documented range but was accepted "
                 f"(reads back {got!r})")
+        elif not accepted and valid and path == "yaml-exp":
+            pass                        # the scalar reaches the application as text: refusing it loudly is legitimate
         elif not accepted and valid:
             bad("valid-rejected", label, f"value {value!r} ({label}) is inside the documented range but was refused: {err}")
         elif accepted and valid and not _same_value(got, value):
